@@ -60,7 +60,7 @@ def work(ctx, tier):
         ctx.inc("sweep_scenarios")
     n = (9000 if tier == "quick" else 250000) // ctx.nshards
     for k in range(n):
-        sc = gen.rand_scenario(rng, p_special=0.08, specials=("abort", "nested_exh", "nested_open", "cancel", "kbd", "sysexit"), p_budget=0.3, p_handler=0.4, p_abort=0.3, p_breaker=0.3, ncalls=(1, 2), placements=(k % 5 == 0))
+        sc = gen.rand_scenario(rng, p_special=0.08, specials=("abort", "nested_exh", "nested_open", "cancel", "kbd", "sysexit"), p_budget=0.3, p_handler=0.4, p_abort=0.3, p_breaker=0.3, ncalls=(1, 2), placements=(k % 5 == 0), p_res_none=0.2, p_exc_same=0.1, poll_kinds=True)
         if k % 9 == 0:
             sc["cfg"]["no_retry"] = True
         for e in common.pick_entries(rng, entries, 3):
@@ -102,6 +102,10 @@ def work(ctx, tier):
         for e in common.pick_entries(rng, entries, 3):
             _one(ctx, sc, e, stats)
         ctx.inc("start_hook_abort_scenarios")
+    if ctx.shard == 0:
+        from . import hang
+
+        hang.hung_attempt_runs(ctx, "C11")
     common.flush_stats(ctx, stats)
 
 
@@ -118,6 +122,7 @@ def conclude(ctx):
         floors[f"value/{fam}"] = (sum(v for k, v in cells.items() if k.startswith("outcome:value/") and k.endswith(fam)), 100)
     floors["caller_callback_errors_propagated"] = (ctx.cnt["caller_callback_errors_propagated"], 20)
     floors["outcomes_checked"] = (ctx.cnt["outcomes_checked"], 3000)
+    floors["hung_attempt_runs"] = (ctx.cnt["hung_attempt_runs"], 6)
     floors["abort_position:start-hook"] = (ctx.cnt["abort_position:start-hook"], 30)
     return dict(
         rule=(
